@@ -39,6 +39,7 @@ class HKnobs(object):
         self.p_local = 0.6
         self.max_steps = 8
         self.p_embed = 0.5        # a compound state's children come from an embedded HierarchicalMachine (own auto flag)
+        self.p_object = 0.3        # a compound state arrives as a pre-built NestedState object owning its substates
         self.p_remove = 0.12       # remove_transition steps (a trigger may live in several scopes; often only part goes)
         self.p_enum = 0.0          # states given as nested Enum classes (member names shared between levels)
         self.__dict__.update(kw)
@@ -120,13 +121,16 @@ def gen_case(rng, kn):
     # embedded machines: a top-level compound (no parallel state inside) whose children, initial child and local
     # transitions are given as a separate HierarchicalMachine with its OWN auto_transitions flag
     for node in tree:
-        # (children without substates: `_add_machine_states` recognises the embedded machine's auto transitions by its
-        # TOP-LEVEL state names only, so `to_<nested state>` events of an embedded machine with substates are copied as
-        # local events — construction of embedded machines is C13's business)
-        flat_kids = node['children'] and not node['parallel'] and not any(c['children'] or c['local'] for c in node['children'])
-        if flat_kids and not is_enum and rng.random() < kn.p_embed:
-            # mostly the flag that differs from the embedding machine's
-            node['embed'] = {'auto': (not case['auto']) if rng.random() < 0.7 else case['auto']}
+        below = all_nodes(node['children'])
+        plain = node['children'] and not node['parallel'] and not is_enum
+        deep = any(c['children'] for c in node['children'])
+        if plain and not any(c['parallel'] or c['local'] for c in below) and not node['local'] and rng.random() < kn.p_object:
+            node['form'] = 'object'        # NestedState object with ready-made substates (2-3 levels)
+        elif plain and rng.random() < kn.p_embed:
+            # mostly the flag that differs from the embedding machine's.  (An embedded machine WITH substates keeps its
+            # auto transitions off: `_add_machine_states` recognises the embedded machine's auto transitions by its
+            # top-level state names only and would copy `to_<nested>` events as local events — C13's business.)
+            node['embed'] = {'auto': False if deep else ((not case['auto']) if rng.random() < 0.7 else case['auto'])}
     for _ in range(rng.randint(1, 4)):
         src = rng.choice(paths)
         dst = rng.choice(paths) if rng.random() < 0.85 else None
@@ -204,12 +208,25 @@ def gen_case(rng, kn):
 # realisation
 # ---------------------------------------------------------------------------------------------
 
+_CLASSES = {}
+
+
 def machine_class(sep):
     from transitions.extensions.nesting import HierarchicalMachine, NestedState
     if sep == '_':
         return HierarchicalMachine
-    ns = type('NestedState11', (NestedState,), {'separator': sep})
-    return type('HierarchicalMachine11', (HierarchicalMachine,), {'state_cls': ns})
+    if sep not in _CLASSES:
+        ns = type('NestedState11', (NestedState,), {'separator': sep})
+        _CLASSES[sep] = type('HierarchicalMachine11', (HierarchicalMachine,), {'state_cls': ns})
+    return _CLASSES[sep]
+
+
+def state_object(cls, n):
+    """a ready-made NestedState that already owns its substates"""
+    st = cls.state_cls(n['name'], initial=n['initial'])
+    for c in n['children']:
+        st.add_substate(state_object(cls, c))
+    return st
 
 
 def to_dicts(nodes, sep):
@@ -217,6 +234,9 @@ def to_dicts(nodes, sep):
     for n in nodes:
         if not n['children'] and not n['local']:
             out.append(n['name'])
+            continue
+        if n.get('form') == 'object':
+            out.append(state_object(machine_class(sep), n))
             continue
         d = {'name': n['name']}
         if n.get('embed'):
@@ -266,6 +286,7 @@ class HRun(object):
             self.objs[i], self.originals[i] = make_model(spec, i)
         self.registered = []
         self.all_claims = {}
+        self.deleted = {}       # model index -> names remove_transition deleted from the model (model_override)
         try:
             states = to_dicts(case['tree'], self.sep)
             initial = self.sep.join(case['initial'])
@@ -429,9 +450,10 @@ def parse_answer(ans, paths):
              'triggers': c.lst(c.name), 'fires': c.lst(c.name)}
         out.append(d)
     known = sorted(c.lst(c.name))
+    covered = bool(c.nat())
     if not c.done():
         raise common.MachineryError('c11hsm: trailing output')
-    return out, known
+    return out, known, covered
 
 
 # ---------------------------------------------------------------------------------------------
@@ -504,7 +526,7 @@ def check_step(run, last_op, pending):
         orig = run.originals[i]
         user = {n: v for n, v in orig.items() if n != attr}
         qpaths, req = enc_request(run, obj)
-        obs = {'model': i, 'paths': qpaths, 'active': None, 'per_path': [dict() for _ in qpaths], 'known': sorted(events)}
+        obs = {'model': i, 'paths': qpaths, 'active': None, 'per_path': [dict() for _ in qpaths], 'known': sorted(events), 'auto': auto}
         pending.append(('c11hsm', req, obs))
         act = active_paths(run, obj)
         obs['active'] = act
@@ -522,6 +544,8 @@ def check_step(run, last_op, pending):
         for n, cl in want.items():
             if len(run.all_claims[n]) != 1 or n == attr:
                 continue
+            if n in run.deleted.get(i, ()):
+                continue               # model_override: the replacement was deleted together with its event
             kind = sorted(cl)[0][0]
             if kind == 'toFn':
                 expected = n not in user           # `to` is bound with hasattr/setattr, never over a user attribute
@@ -573,7 +597,10 @@ def check_step(run, last_op, pending):
             setattr(twin, attr, copy.deepcopy(cur))
             if a != b or sa != sb:
                 bad('monitor', 'event-method-differs-from-trigger', model=i, event=e, method=[a, sa], by_name=[b, sb])
-        # -- to_<state>() exists for every state iff auto, and ends in that state ---------------
+        # -- to_<state>() exists for every state iff auto, and ends in that state — called from EVERY state of the
+        #    machine (all of them up to 14 states; beyond that every top-level state and a fixed sample of the rest)
+        probe_sources = qpaths if len(qpaths) <= 14 else \
+            [p_ for p_ in qpaths if len(p_) == 1] + random.Random(len(qpaths)).sample([p_ for p_ in qpaths if len(p_) > 1], 8)
         for p in qpaths:
             e = 'to_' + sep.join(p)
             exists = e in m.events
@@ -586,7 +613,7 @@ def check_step(run, last_op, pending):
             if f is None:
                 bad('monitor', 'to-helper-missing', model=i, path=p, access=names)
                 continue
-            for src in qpaths[:6]:
+            for src in probe_sources:
                 twin_m.set_state(sep.join(src), twin)
                 r = outcome(f)
                 chk = access(twin, is_access(sep, p)) if is_access(sep, p)[0] in judged else None
@@ -774,9 +801,12 @@ def correspond(kind, obs, ans):
         model = [int(x) for x in ans.split()]
         return None if model == obs['kinds'] else ('wrapper_binding', {'names': obs['names'], 'impl': obs['kinds'],
                                                                         'model': model, 'op': obs['op']})
-    lean, known = parse_answer(ans, obs['paths'])
+    lean, known, covered = parse_answer(ans, obs['paths'])
     if 'known' in obs and obs['known'] != known:
         return ('known_events', {'impl': obs['known'], 'model': known})
+    if obs.get('auto') and not covered:
+        # the verified check `autoCoveredB` (premise of C11_to_fires_everywhere) on the real machine's tables
+        return ('auto_transitions_cover_every_state', {'model': covered, 'auto': True})
     for p, ob, lp in zip(obs['paths'], obs['per_path'], lean):
         for key, what in (('is_access', 'is_access_names'), ('to_access', 'to_access_names'), ('triggers', 'get_triggers'),
                           ('fires', 'fires')):
@@ -807,6 +837,10 @@ def run_case(case):
         if wreq is not None and r[0] == 'ok':
             names = wrapper_names(wsteps)
             pending.append(('c11wrap', wreq, {'names': names, 'kinds': [attr_kind(run.objs[op[1]], n) for n in names], 'op': op}))
+        if op[0] == 'remove' and case['override'] and r[0] == 'ok' and \
+                op[1] not in all_event_names(scope_tables(run.machine, case['sep'])):
+            for i in run.registered:
+                run.deleted.setdefault(i, set()).add(op[1])
         facts['steps'] += 1
         facts['fired'] += int(r == ('ret', True) or (op[0] == 'to' and r == ('ok',)))
         if r[0] == 'raised' and op[0] in ('model', 'state', 'trans', 'local', 'remove'):
